@@ -98,6 +98,9 @@ INSTANCES = [
     ("log_file_handler_init", 77, 1, True, True, True),
     ("log_file_rotate_handler_init", 78, 1, True, True, True),
     ("log_file_rotate_handler_write_rotate", 79, 2, False, False, True),
+    # the logger asks the attached handlers whether any accepts the level before it allocates: async_logger_log (46) runs with
+    # a sink handler that accepts the message; here the only handler refuses it, so the call must make no acquisition (att = 0)
+    ("async_logger_log_filtered", 80, 0, False, True, True),
 ]
 # boundary contents on the success path: (name, id, calls, number of caller-owned values stored in the container).
 # destroy runs with a counted free callback; a reported failure is retried without faults before destroy.
@@ -510,7 +513,7 @@ MANIFEST = {
                    "tracked pointer variables): the outcome of a run depends only on the fault positions it consulted, so the finite "
                    "decision tree explored by the checker wf_scn covers every fault function; a scenario accepted by wf_scn reports "
                    "failure, leaks nothing, does not crash/hang/double-free and is safe to destroy under EVERY fault set, and behaves "
-                   "under any fault set as under its first hit.  80 instances transcribe the anchored constructors / growers / "
+                   "under any fault set as under its first hit.  81 instances transcribe the anchored constructors / growers / "
                    "inserters / destroys literally (wf_scn = true by vm_compute for the repaired code; the 17 transcriptions of the "
                    "unchanged defective code are refuted with a witness k).  Tied to the C code on every run by complete single-fault "
                    "enumeration + seeded multi-fault sets on the library compiled from the working tree with the allocator and "
